@@ -580,8 +580,8 @@ Definition bare_object_text (pl : option (list (list N))) (n : nat) (gap ind : t
   if selects_proto pl then proto_chain_text n gap ind else [123; 125].
 
 (* a non-container value after toJSON: apply the function replacer, unwrap primitive wrappers, serialise.
-   [symbox_undef] = false is the specification (a Symbol wrapper is an ordinary object: "{}"). *)
-Definition ser_leaf (symbox_undef : bool) (pl : option (list (list N))) (rf : option N) (gap ind : text)
+   A Symbol wrapper is an ordinary object without serialisable own properties. *)
+Definition ser_leaf (pl : option (list (list N))) (rf : option N) (gap ind : text)
                     (key : list N) (v : jv) : sres :=
   if rf_drops rf key then Some None else
   let v1 := match rf, v with
@@ -603,7 +603,7 @@ Definition ser_leaf (symbox_undef : bool) (pl : option (list (list N))) (rf : op
     end
   | VBigInt | VBoxBigInt => None
   | VUndef | VSym | VFun => Some None
-  | VBoxSym => if symbox_undef then Some None else Some (Some (bare_object_text pl 2 gap ind))
+  | VBoxSym => Some (Some (bare_object_text pl 2 gap ind))
   | VCyc _ => None
   | VToJSON _ _ => Some (Some (bare_object_text pl 1 gap ind))   (* its only own property is a function *)
   | VArr _ | VObj _ => Some None               (* not reached: containers are handled by [ser] *)
@@ -644,15 +644,15 @@ Fixpoint collect_elems (l : list sres) : option (list text) :=
   end.
 
 (* SerializeJSONProperty(key, holder) where holder[key] = v.  [tj]: the toJSON step is still to be done. *)
-Fixpoint ser (sb : bool) (pl : option (list (list N))) (rf : option N) (gap ind : text)
+Fixpoint ser (pl : option (list (list N))) (rf : option N) (gap ind : text)
              (tj : bool) (key : list N) (v : jv) {struct v} : sres :=
   match v with
   | VToJSON k inner =>
     if tj then
-      (if k =? 0 then ser sb pl rf gap ind false key inner
-       else if k =? 1 then ser_leaf sb pl rf gap ind key (VStr key)
-       else ser_leaf sb pl rf gap ind key VUndef)
-    else ser_leaf sb pl rf gap ind key v
+      (if k =? 0 then ser pl rf gap ind false key inner
+       else if k =? 1 then ser_leaf pl rf gap ind key (VStr key)
+       else ser_leaf pl rf gap ind key VUndef)
+    else ser_leaf pl rf gap ind key v
   | VArr l =>
     if rf_drops rf key then Some None else
     let ind' := ind ++ gap in
@@ -660,7 +660,7 @@ Fixpoint ser (sb : bool) (pl : option (list (list N))) (rf : option N) (gap ind 
             ((fix go (i : N) (l : list jv) : list sres :=
                 match l with
                 | [] => []
-                | x :: r => ser sb pl rf gap ind' true (dec_digits i) x :: go (i + 1) r
+                | x :: r => ser pl rf gap ind' true (dec_digits i) x :: go (i + 1) r
                 end) 0 l) with
     | None => None
     | Some items => Some (Some (wrap 91 93 (nl_pre gap ind') (nl_pre gap ind) items))
@@ -668,19 +668,19 @@ Fixpoint ser (sb : bool) (pl : option (list (list N))) (rf : option N) (gap ind 
   | VObj l =>
     if rf_drops rf key then Some None else
     let ind' := ind ++ gap in
-    let rs := norm_props (map (fun kv => (fst kv, ser sb pl rf gap ind' true (fst kv) (snd kv))) l) in
+    let rs := norm_props (map (fun kv => (fst kv, ser pl rf gap ind' true (fst kv) (snd kv))) l) in
     let sel := match pl with
                | Some ks => map (fun k => (k, lookup k rs
                                                 (if list_eqb k str_proto
                                                  then Some (Some (proto_chain_text 0 gap ind'))
-                                                 else ser_leaf sb pl rf gap ind' k VUndef))) ks
+                                                 else ser_leaf pl rf gap ind' k VUndef))) ks
                | None => rs
                end in
     match collect_members gap sel with
     | None => None
     | Some items => Some (Some (wrap 123 125 (nl_pre gap ind') (nl_pre gap ind) items))
     end
-  | _ => ser_leaf sb pl rf gap ind key v
+  | _ => ser_leaf pl rf gap ind key v
   end.
 
 (* the property list of an array replacer *)
@@ -721,18 +721,16 @@ Inductive sout := SText (t : text) | SUndef | SThrow.
 Definition sout_of (r : sres) : sout :=
   match r with None => SThrow | Some None => SUndef | Some (Some t) => SText t end.
 
-Definition stringify_g (sb : bool) (v : jv) (r : repl) (space : jv) : sout :=
+Definition stringify (v : jv) (r : repl) (space : jv) : sout :=
   let pl := match r with RList l => Some (prop_list l) | _ => None end in
   let rf := match r with RFun k => Some k | _ => None end in
-  sout_of (ser sb pl rf (gap_of space) [] true [] v).
+  sout_of (ser pl rf (gap_of space) [] true [] v).
 
-(* S *)
-Definition stringify := stringify_g false.
 Definition stringify_plain (v : jv) : sout := stringify v RNone VUndef.
 
 (* Object.MarshalJSON: stringify without replacer and gap; undefined is written as null *)
-Definition marshal_g (sb : bool) (v : jv) : sout :=
-  match stringify_g sb v RNone VUndef with
+Definition marshal (v : jv) : sout :=
+  match stringify v RNone VUndef with
   | SUndef => SText [110; 117; 108; 108]
   | x => x
   end.
